@@ -33,7 +33,7 @@ def toHex (b : Bytes) : String :=
   String.ofList (b.foldr (fun x acc => hexNib (x.toNat / 16) :: hexNib (x.toNat % 16) :: acc) [])
 
 def haltStr : Halt → String
-  | .none => "none" | .ret => "ret" | .exc => "exc" | .oob => "oob" | .badAlloc => "badalloc"
+  | .none => "none" | .ret => "none" | .exc => "exc" | .oob => "oob" | .badAlloc => "badalloc"
 
 def dumpObj (c : Codec) (o : Obj) : String :=
   let rec go : List FieldInfo → Nat → List String → List String
@@ -72,8 +72,8 @@ def handle (line : String) : String :=
       let st := c.encode cfg o
       "enc halt=" ++ haltStr st.halt ++ " size0=" ++ toString s0 ++ " out=" ++ toHex st.out ++
         (if st.halt == .oob then "" else " obj " ++ dumpObj c st.obj)
-  | ["dec", cn, h] =>
-    match findCodec cn, parseHex h with
+  | "dec" :: cn :: hs =>
+    match findCodec cn, parseHex (String.join hs) with
     | some c, some b =>
       let st := c.decode cfg c.fresh b
       "dec halt=" ++ haltStr st.halt ++ (if st.halt == .oob || st.halt == .badAlloc then "" else
